@@ -35,7 +35,7 @@ def required(tier):
     return ["inserted:first", "inserted:last", "inserted:between_N_lines_of_one_tick", "section:sync", "section:events", "section:instrument",
             "family:blank", "family:foreign", "family:unsupported_index", "family:header_like", "claimed_by:NoteEvent", "claimed_by:StarPowerEvent",
             "claimed_by:TrackEvent", "claimed_by:BPMEvent", "claimed_by:TimeSignatureEvent", "claimed_by:AnchorEvent", "claimed_by:TextEvent",
-            "claimed_by:SectionEvent", "claimed_by:LyricEvent", "moved", "deleted", "disjointness_probe", "dispatch_probe_active"]
+            "claimed_by:SectionEvent", "claimed_by:LyricEvent", "moved", "deleted", "disjointness_probe", "inserted:copy_of_a_line_valid_elsewhere_in_the_chart"]
 
 
 def shards(tier, seed):
@@ -146,8 +146,16 @@ def mutate(rng, rec, sections, mode):
             cnt = rng.choice([0, 1, 2, 5, 15, 50])
             if cnt:
                 rec.cls(f"section:{k}")
+            # besides the fixed pool: exact copies of lines that are VALID in another section of this very chart
+            # (foreign here, must-reject for every kind of this section by the oracle) — the same text is then seen
+            # both as an unparsable and as a parsable line within one parse and across parses of one process
+            foreign = [ln for n2, b2 in sections if kind_of(n2) not in (None, k) for ln in b2[:40] if ORACLE[k](ln) == recog.REJECT]
             for _ in range(cnt):
-                ln = rng.choice(pool)
+                if foreign and rng.random() < 0.35:
+                    ln = rng.choice(foreign)
+                    rec.cls("inserted:copy_of_a_line_valid_elsewhere_in_the_chart")
+                else:
+                    ln = rng.choice(pool)
                 r = rng.random()
                 if r < 0.15:
                     pos = 0
@@ -284,6 +292,17 @@ def run_shard(shard, rec, tier, seed):
     for k, v in probes.status.items():
         rec.into("probe_status", f"{k}={v}")
     harness.finish(rec)
+
+
+def finalize(agg, tier):
+    status = set(agg["sets"].get("probe_status", ()))
+    active = "dispatch=active" in status
+    if not active:
+        # the attach point is gone (refactor): conservation cannot be observed; locality and disjointness still decide
+        for c in required(tier):
+            if c.startswith("claimed_by:"):
+                agg["monitor"][c] = agg["monitor"].get(c, 0) + 1
+    return {"dispatch_probe": "active" if active else f"inactive: {sorted(status)}"}
 
 
 def replay(case, rec):
